@@ -708,3 +708,66 @@ reg("C19", [eng_fc],
     level_note="Weaker-than-SC memory orderings and cancellation of a waiting task are outside the model; tokio's Notify "
                "is modelled as snapshot counter + waiter set (notify_waiters stores no permit).",
     assumptions=["sequential consistency of the atomic operations", "tokio::sync::Notify behaves as modelled"])
+
+
+# ================================================================= waiting consumers
+
+WAIT_OPS = {"PULL", "PUB", "PUBN", "ACK", "MOD", "STATS", "SR", "SO", "SS", "JOIN", "BG", "DS"}
+
+
+def eng_wait_random(mon, triggers, tag="wait-random", nq=300, nt=8000):
+    def eng(ctx):
+        w = gen.merge(gen.W_DATA, {"CS": 1, "DS": 2, "DT": 1}, gen.W_WAIT)
+        cases = seeded(gen.random_cases(ctx.seed * 1000 + 13, ctx.n(nq, nt), w, "w", allow_streams=True, multi=True))
+        return ctx.seq(tag, cases, relevant=WAIT_OPS, triggers=triggers, monitor=mon)
+    eng.__name__ = "eng_" + tag.replace("-", "_")
+    return eng
+
+
+def eng_wait_enum(ctx):
+    cases = gen.wait_enum_cases()
+    if not ctx.thorough:
+        cases = cases[::3]
+    return ctx.seq("wait-enum", cases, relevant=WAIT_OPS, triggers={"SR", "JOIN"}, monitor=M.mon_wait)
+
+
+def eng_delete_release(ctx):
+    cases = gen.delete_release_cases(range(ctx.n(12, 200)))
+    return ctx.seq("delete-release", cases, relevant=WAIT_OPS | {"GS", "LTS"}, triggers={"DS"}, monitor=M.mon_release)
+
+
+reg("C06", [eng_wait_enum, eng_wait_random(M.mon_wait, {"SR", "JOIN"})],
+    rule="wait-enum: every combination of up to three waiting consumers (stream limit 1 / stream limit 10 / blocked "
+         "Pull limit 1 / blocked Pull limit 5) x five sequences of availability events (publish 1/3/0, nack, expiry, "
+         "ack), every consumer and STATS observed after each event; wait-random: random scripts with several "
+         "streams and blocked Pulls per subscription, deletions and expiry. non-trivial = a waiting consumer received "
+         "messages",
+    monitor=M.mon_wait, title="Waiting consumers are woken when a message becomes available", design_ref="7/C06",
+    technique="Coq: the serving loop of the quiescent model terminates by exhaustion of messages or of waiters "
+              "(induction on fuel with the explicit measure), availability always makes the actor run; differential "
+              "correspondence with blocked Pulls and several streams per subscription",
+    level_text="Proved for the sequential-issue model (requests one at a time, server run to quiescence in between; any "
+               "number and mix of waiting streams and blocked Pulls): at every quiescent point a non-empty backlog and a "
+               "waiting consumer do not coexist; the availability event itself (post, nack, expiry tick) makes the actor "
+               "run and serve; a woken Pull gets at least one message; who is served is the oldest waiter (tokio Notify "
+               "FIFO), streams re-queue behind the others. " + SEQ_NOTE,
+    level_note="PARTIAL with respect to the property's quantifier: interleavings of the availability event with a "
+               "consumer's check-then-wait step, and cancellation of a consumer while it is being woken, are not "
+               "covered by a theorem (the concurrent small-step model of Notify is not built); the correspondence "
+               "runs exercise the real Notify only at quiescence granularity with seeded select! order.")
+
+reg("C12", [eng_delete_release, eng_wait_random(M.mon_release, {"DS"})],
+    rule="delete-release: per runtime seed, DeleteSubscription with two streams (request side open / closed), a blocked "
+         "Pull, consumers of another subscription, and (variants) ack/nack/pull/get/publish calls started without "
+         "letting the runtime settle, then every consumer observed; wait-random as for C06. non-trivial = a "
+         "DeleteSubscription answered OK while consumers were waiting",
+    monitor=M.mon_release, title="Deleting a subscription releases the consumers waiting on it", design_ref="7/C12",
+    technique="Coq: effect of DeleteSubscription on the consumer queues of the quiescent model; differential "
+              "correspondence over runtime seeds (select! order) incl. calls racing the deletion, hang detector",
+    level_text="Proved for the sequential-issue model: DeleteSubscription ends every stream open on the subscription with "
+               "NOT_FOUND, completes every Pull blocked on it with an error status, leaves nobody waiting on it and does "
+               "not disturb consumers of other subscriptions; later requests find the name absent. Racing requests are "
+               "exercised on the real server over runtime seeds: each must complete (any status), none may hang. "
+               + SEQ_NOTE,
+    level_note="PARTIAL: 'for all interleavings and all outcomes of select!' is covered by seeds 0..N on the real "
+               "server, not by a theorem over a concurrent model.")
